@@ -344,7 +344,11 @@ func (e *Engine) newExec(u *Unit) *Exec {
 	if c.Opts["wrap_ok"] == "true" {
 		ar.WrapOK = true
 	}
-	x := &Exec{eng: e, ar: ar, unit: u, pkg: u.Pkg, info: u.Pkg.TypesInfo, c: c,
+	var info *types.Info
+	if u.Pkg != nil {
+		info = u.Pkg.TypesInfo
+	}
+	x := &Exec{eng: e, ar: ar, unit: u, pkg: u.Pkg, info: info, c: c,
 		layouts: map[string][]comp{}, siteCount: map[string]int{}, errIDs: map[string]int64{},
 		abstr: map[string]bool{}, assumes: map[string]bool{}, specDecls: map[string]*FuncDecl{},
 		arrRegions: map[*types.Var]*Region{}, usedContracts: map[string]*Contract{}, ghostTypes: map[string]types.Type{},
@@ -352,7 +356,67 @@ func (e *Engine) newExec(u *Unit) *Exec {
 	return x
 }
 
+// verifyLemma: a lemma is a unit without code: fresh parameters, requires
+// assumed, ensures to prove. Used for two-contract lemmas over spec functions.
+func (e *Engine) verifyLemma(c *Contract) *UnitResult {
+	res := &UnitResult{Contract: c, Theory: c.Theory, File: shortFile(c.File)}
+	if c.Theory != "bv" && c.Theory != "int" {
+		res.Errors = append(res.Errors, "lemma has no theory (bv|int)")
+		return res
+	}
+	u := &Unit{Key: c.Key, Short: c.Short, C: c}
+	res.Unit = u
+	x := e.newExec(u)
+	func() {
+		defer func() {
+			if r := recover(); r != nil {
+				x.errs = append(x.errs, fmt.Sprintf("engine panic: %v", r))
+				if os.Getenv("GVC_DEBUG") != "" {
+					panic(r)
+				}
+			}
+		}()
+		st := newState()
+		x.entry = st
+		env := map[string]cbind{}
+		bound := map[string]*Term{}
+		for _, p := range c.LParams {
+			s := x.specSort(p.Type)
+			v := x.freshTerm(p.Name, s)
+			switch {
+			case p.Type == "bytes" || p.Type == "bool" || p.Type == "id":
+				env[p.Name] = cbind{Sc{v}, nil}
+			default:
+				bound[p.Name] = v
+				if ii, ok := basicByName(p.Type); ok {
+					// Go integer types: range-restricted mathematical integers
+					mi := x.ar.mathInfo()
+					st.add(x.ar.le(x.ar.mathC(ii.min()), v, mi))
+					st.add(x.ar.le(v, x.ar.mathC(ii.max()), mi))
+				}
+			}
+		}
+		mk := func(cl *Clause) *cctx {
+			return &cctx{x: x, st: st, old: st, env: env, bound: bound, clause: cl, callee: &Contract{Pkg: c.Pkg}}
+		}
+		for _, r := range c.Requires {
+			st.add(x.cbool(r.Expr, mk(r)))
+		}
+		cov := x.oblige(st, "cover", "cover.requires", "", False, 0)
+		cov.Cover, cov.MustFail = true, true
+		for _, en := range c.Ensures {
+			x.obligeClause(st, "lemma", "ensures."+en.Label, en, x.cbool(en.Expr, mk(en)), 0)
+		}
+	}()
+	res.Obligs = x.obligs
+	res.Errors = append(res.Errors, x.errs...)
+	return res
+}
+
 func (e *Engine) verifyUnit(c *Contract) *UnitResult {
+	if c.IsLemma {
+		return e.verifyLemma(c)
+	}
 	res := &UnitResult{Contract: c, Theory: c.Theory}
 	u, err := e.findUnit(c)
 	if err != nil {
